@@ -123,13 +123,16 @@ def ref_state_at(sig, sizes, off, getfield, col):
 
 
 MJ_FIELDS = [c[1] for c in COMPS if c[1]]
+_MJD = {}
 
 
 def mj_world(mjm, fields):
   """MjData holding one world's state fields (dict field -> numpy)"""
   import mujoco
 
-  d = mujoco.MjData(mjm)
+  d = _MJD.get(id(mjm))
+  if d is None:
+    d = _MJD[id(mjm)] = mujoco.MjData(mjm)
   for f in MJ_FIELDS:
     v = np.asarray(fields[f], dtype=np.float64)
     if f == "time":
@@ -403,12 +406,14 @@ def unit_h(kind, mname, masked, nworld):
           ineq = And(bitof(sig, ieq), cmp(">=", col, off[ieq]), cmp("<", col, arith("+", off[ieq], H.counts[ieq])))
           pre.append(core.zbool(Implies(ineq, Or(v == 0, v == 1))))
       ctx.assume("set-get: the eq_active slots of the input vector hold 0.0 or 1.0 (as every get_state / mj_getState output does)")
-    sess = ctx.session(pre)
+    sess = ctx.session(pre, timeout_ms=max(ctx.timeout_ms, 90000))
     names = H.names()
     ctx.reach(sess, "twin:valid-signature", True)
     ctx.reach(sess, "twin:mixed", And(total > 0, total < W, *([H.sel(0), Not(H.sel(1))] if masked else [])))
     rp = lambda target: h_replayer(ctx, H, target)
     for key, tid, o in H.hr.obl:
+      if kind in ("set-get", "get-set"):
+        break  # the same launches (same symbolic arguments) have their index obligations decided in H/get and H/set
       if o.kind == "bounds":
         ctx.prove(sess, f"bounds/{key.split('_')[1] if '_' in key else key}@{o.where.split(':')[-1]}/w{tid[0]}/{o.info[1]}.{o.info[2]}", getattr(o, "strict", o.cond), o.guard, names=names, replay=rp(("bounds",)), desc=f"{kind}: {key} thread {tid} indexes {o.info[1]} out of range at {o.where}")
       else:
@@ -470,9 +475,51 @@ def _cell_numpy(model, cell, shape_np, dtype_np, rng=None):
   return a.reshape(shape_np).astype(dtype_np)
 
 
+def forked(fn, what):
+  """run a replay on real code in a forked child: a mutated/defective kernel writing out of bounds must not take the unit down"""
+
+  def _rp(model):
+    import multiprocessing as mp
+
+    mpc = mp.get_context("fork")
+    pc, cc = mpc.Pipe(duplex=False)
+
+    def child():
+      try:
+        cc.send(fn(model))
+      except Exception as ex:  # noqa
+        cc.send(("error", f"{type(ex).__name__}: {ex}"))
+      finally:
+        cc.close()
+        os._exit(0)
+
+    p = mpc.Process(target=child)
+    p.start()
+    cc.close()
+    res = None
+    try:
+      if pc.poll(900):
+        res = pc.recv()
+    except EOFError:
+      res = None
+    p.join(10)
+    if p.is_alive():
+      p.kill()
+    if res is None:
+      return True, f"{what}: the real call crashed the replay process (exit code {p.exitcode}) on the solver's input"
+    if res[0] == "error":
+      raise RuntimeError(res[1])
+    return res
+
+  return _rp
+
+
 def h_replayer(ctx, H, target):
   """replay through the public API on real arrays; the oracle is the mujoco library (mj_getState / mj_setState per world)"""
+  return forked(_h_replayer(ctx, H, target), f"H/{H.kind}")
 
+
+def _h_replayer(ctx, H, target):
   def _rp(model):
     import mujoco
 
@@ -656,14 +703,14 @@ def unit_k(which, masked, U):
     ctx.bound(unroll=U, sizes_max=U, state_width_max=64, note=f"every model size in [0,{U}] (nbody >= 1), loops unwound {U} times, nworld and thread id symbolic (<= 64)")
     ctx.assume("0 <= sig < 2^NSTATE", "Data arrays have their documented shapes (nworld, size)", "state.shape == (nworld, size(sig)) exactly", "0 <= tid < nworld (launch dim = nworld)", "active.shape == (nworld,)")
     bg = kt.bg + [sig >= 0, sig < (1 << NBITS), nworld >= 1, w < nworld, Wd == tot, Wd <= 64, sz["nbody"] >= 1] + [z3.And(v >= 0, v <= U) for v in sz.values()]
-    sess = ctx.session(bg)
+    sess = ctx.session(bg, timeout_ms=max(ctx.timeout_ms, 90000))
     act = kt.pre("active_in", w) if masked else True
     names = dict({"sig": sig, "tid": w, "nworld": nworld, "W": Wd}, **sz)
     if masked:
       names["active"] = act
-    env = {"which": which, "masked": masked}
+    env = {"which": which, "masked": masked, "randomize_floats": 2}  # a store to the wrong column is invisible when the solver picks equal contents
     ctx.reach(sess, "twin:reachable", And(act, tot > 0))
-    ctx.reach(sess, "twin:all-components", And(act, sig == (1 << NBITS) - 1, *[v == U for v in sz.values()]))
+    ctx.reach(sess, "twin:all-components", And(act, sig == (1 << NBITS) - 1, *[v >= min(U, 2) for v in sz.values()]))
     rpb = lib.make_replay(ctx, kt, loc, "bounds", "bounds", env=env)
     rpg = lambda nm: lib.make_replay(ctx, kt, loc, nm, "goal", goal="checks.c15:goal_k", env=env)
     for n_, o in enumerate(kt.it.obl):
@@ -679,8 +726,60 @@ def unit_k(which, masked, U):
         ctx.prove(sess, f"inactive-no-access/{a.cell.name}@{a.where.split(':')[-1]}#{n_}", Not(a.guard), Not(act), names=names, replay=rpg("inactive"), desc=f"{key}: inactive world {a.kind}-accesses {a.cell.name} at {a.where}")
     j, w2, c2 = z3.Int("j"), z3.Int("w2"), z3.Int("c2")
     names2 = dict(names, j=j, w2=w2, c2=c2)
+    if which == "get_state":
+      # reference items in concatenation order: (present, column, value); sizes <= U so U elements per component suffice
+      items = []
+      for i, (cname, field, s, wd) in enumerate(COMPS):
+        if not labels[i]:
+          continue
+        n = 1 if s is None else sz[s]
+        cell = kt.cell(labels[i])
+        for e in range(1 if s is None else U):
+          for kk in range(wd):
+            didx = (w,) if s is None else (w, e)
+            items.append((cname, e, kk, And(bitof(sig, i), cmp("<", e, n)), arith("+", off[i], e * wd + kk), as_real(cell, kt.pre(labels[i], *didx, k=kk))))
+      scell = kt.cell(st)
+      sites = [a for a in kt.it.accesses if a.cell is scell and a.kind == "W"]
+      # helper facts about the reference offsets (consequences of their definition; stated to spare the solver the case splits)
+      Oc = list(off) + [tot]
+      facts = [core.zbool(cmp(">=", Oc[t + 1], Oc[t])) for t in range(NBITS)]
+      for t in range(NBITS):
+        facts.append(z3.If(bitof(sig, t), core.zbool(cmp("==", Oc[t + 1], arith("+", Oc[t], counts[t]))), core.zbool(cmp("==", Oc[t + 1], Oc[t]))))
+      ok_f = sess.prove("reference-offset-facts", And(*facts))
+      ctx._rec(ok_f)
+      if ok_f.status != "unsat":
+        ctx.error("reference offset facts not valid (harness error)")
+      else:
+        sess.add(*facts)
+      lemmas_ok = len(sites) == len(items)
+      if lemmas_ok:
+        # every executed store of the thread, in program order, is the next item of the reference concatenation
+        lem = []
+        for n_, ((cname, e, kk, p, colr, v), a) in enumerate(zip(items, sites)):
+          L = And(core.zbool(a.guard) == core.zbool(And(act, p)), Implies(a.guard, And(cmp("==", a.idx[1], colr), cmp("==", a.idx[0], w), cmp("==", a.val, v))))
+          r = ctx.prove(sess, f"store/{cname}[{e}].{kk}", L, True, names=names, replay=rpg(f"store/{cname}"), desc=f"{key}: the store at {a.where} does not write element {e} (component {kk}) of {cname} to column offset(sig) + {wd}*{e} + {kk} exactly when the bit is set, the element exists and the world is active")
+          lemmas_ok = lemmas_ok and r.status == "unsat"
+          lem.append(core.zbool(L))
+        if lemmas_ok:
+          sess.add(*lem)  # proven above: usable as lemmas
+      else:
+        ctx.notes.append(f"{len(sites)} store sites for {len(items)} reference items: per-store lemmas skipped")
+      # final state of the thread's row: reference concatenation laid over the previous contents
+      ref = kt.pre(st, w, c2)
+      for cname, e, kk, p, colr, v in items:
+        ref = ite(And(act, p, cmp("==", colr, c2)), v, ref)
+      for t in range(NBITS + 1):
+        # split by the reference component the column falls into (t == NBITS: columns beyond size(sig))
+        rng = And(cmp(">=", c2, Oc[t]), cmp("<", c2, Oc[t + 1])) if t < NBITS else Or(c2 < 0, cmp(">=", c2, tot))
+        nm = COMPS[t][0] if t < NBITS else "beyond"
+        ctx.prove(sess, f"layout/final-row/{nm}", cmp("==", kt.post(st, w, c2), ref), rng, names=names2, replay=rpg("layout/final-row"), desc=f"{key}: after the thread, state[w, c] (c in the {nm} range) is not the mj_getState concatenation laid over the previous contents")
+      ctx.prove(sess, "layout/beyond-size-untouched", cmp("==", kt.post(st, w, c2), kt.pre(st, w, c2)), Or(Not(act), c2 < 0, cmp(">=", c2, tot)), names=names2, replay=rpg("layout/beyond"), desc=f"{key}: a column >= size(sig) (or a row of an inactive world) is modified")
+      for i, (cname, field, s, wd) in enumerate(COMPS):
+        if labels[i]:
+          idx2 = (w2,) if s is None else (w2, j)
+          ctx.prove(sess, f"not-written/{cname}", Not(kt.written(labels[i], *idx2)), True, names=names2, replay=rpg(f"not-written/{cname}"), desc=f"{key}: get_state writes Data.{field}")
     for i, (cname, field, s, wd) in enumerate(COMPS):
-      if not labels[i]:
+      if not labels[i] or which == "get_state":
         continue
       L = labels[i]
       n = 1 if s is None else sz[s]
@@ -689,19 +788,11 @@ def unit_k(which, masked, U):
       for kk in range(wd):
         col = arith("+", off[i], arith("+", arith("*", j, wd), kk))
         didx = (w,) if s is None else (w, j)
-        if which == "get_state":
-          got, exp = kt.post(st, w, col), as_real(cell, kt.pre(L, *didx, k=kk))
-          goal = cmp("==", got, exp)
-        else:
-          got, src = kt.post(L, *didx, k=kk), kt.pre(st, w, col)
-          goal = (core.zbool(got) == (src != 0)) if cell.dtype == "bool" else cmp("==", got, src)
-        ctx.prove(sess, f"layout/{cname}.{kk}", goal, guard, names=names2, replay=rpg(f"layout/{cname}"), desc=f"{key}: element j of {cname} is not at offset(sig) + {wd}*j + {kk} of the state vector")
-      if which == "set_state":
-        idx2 = (w2,) if s is None else (w2, j)
-        ctx.prove(sess, f"not-written/{cname}", Not(kt.written(L, *idx2)), Or(w2 != w, Not(act), Not(bitof(sig, i))), names=names2, replay=rpg(f"not-written/{cname}"), desc=f"{key}: {field} written although its bit is clear / the world is inactive / another world")
-      else:
-        idx2 = (w2,) if s is None else (w2, j)
-        ctx.prove(sess, f"not-written/{cname}", Not(kt.written(L, *idx2)), True, names=names2, replay=rpg(f"not-written/{cname}"), desc=f"{key}: get_state writes Data.{field}")
+        got, src = kt.post(L, *didx, k=kk), kt.pre(st, w, col)
+        goal = (core.zbool(got) == (src != 0)) if cell.dtype == "bool" else cmp("==", got, src)
+        ctx.prove(sess, f"layout/{cname}.{kk}", goal, guard, names=names2, replay=rpg(f"layout/{cname}"), desc=f"{key}: element j of {cname} is not read from offset(sig) + {wd}*j + {kk} of the state vector")
+      idx2 = (w2,) if s is None else (w2, j)
+      ctx.prove(sess, f"not-written/{cname}", Not(kt.written(L, *idx2)), Or(w2 != w, Not(act), Not(bitof(sig, i))), names=names2, replay=rpg(f"not-written/{cname}"), desc=f"{key}: {field} written although its bit is clear / the world is inactive / another world")
     outside = Or(w2 != w, Not(act), c2 < 0, cmp(">=", c2, tot)) if which == "get_state" else True
     ctx.prove(sess, "not-written/state", Not(kt.written(st, w2, c2)), outside, names=names2, replay=rpg("not-written/state"), desc=f"{key}: state vector written outside [0, size(sig)) of the thread's active world")
     ctx.prove(sess, "not-written/active", Not(kt.written("active_in", w2)), True, names=names2, replay=rpg("not-written/active"), desc=f"{key}: mask written")
@@ -743,7 +834,7 @@ def unit_signature(ctx):
       except Exception as ex:
         ctx.violation(f"accepts/{fn.__name__}/{sig}", f"{fn.__name__} rejects the valid signature {sig}: {ex}", f"{fn.__name__}(m, d, state, {sig}) raised {type(ex).__name__}")
   # pass-through of sig / launch dim (host code between validation and launch), enumerated on the real host functions
-  sigs = range(top) if ctx.tier == "thorough" else sorted(set([1 << i for i in range(NBITS)] + list(range(0, top, 37)) + [top - 1]))
+  sigs = sorted(set([1 << i for i in range(NBITS)] + list(range(0, top, 31 if ctx.tier == "thorough" else 409)) + [top - 1]))
   act = wp.ones(2, dtype=bool)
   bad = []
   for fn in (support.get_state, support.set_state):
@@ -767,9 +858,9 @@ def main(tier, seed, only=None):
   nworld = 3 if th else 2
   for kind in ("get", "set", "set-get", "get-set"):
     units.append(unit_h(kind, "ball", True, nworld))
-  units.append(unit_h("get", "ball", False, 2))
-  units.append(unit_h("set", "ball", False, 2))
   if th:
+    units.append(unit_h("get", "ball", False, 2))
+    units.append(unit_h("set", "ball", False, 2))
     for kind in ("get", "set", "set-get", "get-set"):
       units.append(unit_h(kind, "free", True, 2))
   for which in ("get_state", "set_state"):
@@ -779,4 +870,5 @@ def main(tier, seed, only=None):
         units.append(unit_k(which, masked, 3))
   if only:
     units = [u for u in units if any(o in u[0] for o in only)]
-  return report.run_check(PID, units, tier, seed)
+  # unit budget well above the usual 30-80 s per unit: the machine is shared
+  return report.run_check(PID, units, tier, seed, unit_timeout=900 if not th else 1800)
